@@ -136,7 +136,9 @@ def extra_terms():
 
 
 HUGE = [b"\xff" * 8, b"\x80" + bytes(7), b"\x7f" + b"\xff" * 7, b"\xff" * 9 + b"\x7f", b"\xff" * 10 + b"\x01", b"\x80" * 11 + b"\x01" + b"ab",
-        b"\xff\xff\xff\xff\x0f" + b"x", b"\x81" + b"\x80" * 9 + b"\x01"]
+        b"\xff\xff\xff\xff\x0f" + b"x", b"\x81" + b"\x80" * 9 + b"\x01",
+        # a variable-length integer of more than 4300 decimal digits (the interpreter's int->str limit: error messages must not trip over it)
+        b"\xff" * 2100 + b"\x01" + b"ab", b"\x80" * 2099 + b"\x7f"]
 
 
 def units(tier):
@@ -146,6 +148,9 @@ def units(tier):
     tt = [(t, tn) for t, tn, L in terms_for(tier) if tn in ("T1", "T2", "T4", "X") or tier == "thorough"]
     for ch in chunks(tt, 12):
         us.append({"kind": "trunc-fault", "terms": [[t, tn] for t, tn in ch]})
+    from .. import scale
+    for n in scale.sizes(tier):
+        us.append({"kind": "scale-trunc", "size": n})
     return us
 
 
@@ -160,7 +165,12 @@ def run_input(unit, tier, r):
                 r.states += 1
                 p = rt.parse(d, x, kw, timeout=3)
                 r.case(nontrivial=True, outcome=p[0] if p[0] != "cerr" else "ConstructError", validated=0)
-                if p[0] == "foreign":
+                if p[0] == "foreign" and p[1] == "ValueError" and "integer string conversion" in p[2]:
+                    # one root cause whatever the construct: an error message interpolates an integer of more than 4300 decimal
+                    # digits (int->str limit of Python >= 3.11) - the signature names the cause, not the term
+                    r.violation("C06/foreign-exception-ValueError-int-str-digit-limit", {"part": 1, "term": t, "data": x, "kw": kw},
+                                "%s.parse(<%d bytes: %s...>) raised ValueError: %s while formatting its own error message" % (T.show(t), len(x), x[:6].hex(), p[2]))
+                elif p[0] == "foreign":
                     r.violation("C06/foreign-exception-%s/%s" % (p[1], tsig), {"part": 1, "term": t, "data": x, "kw": kw},
                                 "%s.parse(%s) raised %s: %s (only ConstructError may escape)" % (T.show(t), x.hex(), p[1], p[2]))
                 elif p[0] == "hang":
@@ -171,6 +181,8 @@ def run_input(unit, tier, r):
 def replay_input(case):
     t = case["term"]
     p = rt.parse(T.mk(t), case["data"], case.get("kw") or {})
+    if p[0] == "foreign" and p[1] == "ValueError" and "integer string conversion" in p[2]:
+        return [{"sig": "C06/foreign-exception-ValueError-int-str-digit-limit", "detail": repr(p)}]
     if p[0] == "foreign":
         return [{"sig": "C06/foreign-exception-%s/%s" % (p[1], T.sig_of(t)), "detail": repr(p)}]
     if p[0] == "hang":
@@ -345,8 +357,63 @@ def run_trunc_fault(unit, tier, r):
         r.sample({"term": T.show(t), "tier": tn, "rigid": is_rigid}, cap=2)
 
 
+def scale_rigid_terms(n):
+    """constructs whose fixed part is n bytes long (size axis): every strict prefix of the encoding must be rejected"""
+    B, I16 = G.BYTE, G.I(2, False, "b")
+    S = lambda *ms: ["Struct", [list(m) for m in ms]]
+    return [
+        ["Padding", n], S(("h", B), ("p", ["Padding", n])), S(("h", B), ("p", ["Padding", n]), ("t", B)), ["Padded", n, I16, b"\x00"], S(("a", ["Padded", n, B, b"\x00"]), ("pos", ["Tell"])),
+        ["Aligned", n, B, b"\x00"], S(("a", ["Aligned", n, I16, b"\xff"]), (None, ["Terminated"])), ["Bytes", n], ["Array", n, B], ["Discard", ["Array", n, B]],
+        ["FixedSized", n, ["GreedyBytes"]], ["FixedSized", n, B], S(("f", ["FixedSized", n, I16]), ("pos", ["Tell"])), ["PaddedString", n, "ascii"],
+        S(("n", G.I(4, False, "b")), ("d", ["Bytes", ["this", "n"]])), S(("n", G.I(4, False, "b")), ("p", ["Padding", ["this", "n"]])),
+        ["Prefixed", G.I(4, False, "l"), ["GreedyBytes"], False], ["Array", 2, ["Padded", n // 2 + 1, B, b"\x00"]], ["BytesInteger", n, False, False],
+        ["Bitwise", ["Struct", [["a", ["BitsInteger", 8, False, False]], [None, ["Padding", 8 * (n - 1)]]]]], ["ByteSwapped", ["Bytes", n]],
+        ["LazyStruct", [["a", B], ["b", ["Bytes", n - 1]]]], ["LazyArray", n, B], S(("z", ["Lazy", ["Bytes", n]]), ("pos", ["Tell"])),
+    ]
+
+
+def run_scale_trunc(n, r):
+    for t in scale_rigid_terms(n):
+        d = T.mk(t)
+        tsig = "scale:" + T.sig_of(t)
+        if t[0] == "Struct" and t[1][0][0] == "n":
+            enc = n.to_bytes(4, "big") + bytes(n)
+        elif t[0] == "Prefixed":
+            enc = n.to_bytes(4, "little") + bytes(n)
+        else:
+            try:
+                try:
+                    v, end = R.parse(t, bytes(4 * n + 16))
+                except R.Reject as e:
+                    if e.kind != "TerminatedError":
+                        raise
+                    # ends with Terminated: the encoding is exactly the sized part
+                    v, end = R.parse(["Struct", t[1][:-1]], bytes(4 * n + 16))
+                enc = bytes(end)
+            except Exception:
+                r.extra["scale-term-without-encoding"] += 1
+                continue
+        full = rt.parse(d, enc, {})
+        r.states += 1
+        if full[0] != "ok":
+            r.violation("C06/scale/canonical-encoding-rejected/" + tsig, {"part": "scale", "term": t, "size": n}, "%s: its %d-byte encoding is rejected: %r" % (T.show(t), len(enc), full[:2]))
+            continue
+        cuts = sorted({0, 1, len(enc) // 2, len(enc) - 2, len(enc) - 1, max(0, len(enc) - 8192), max(0, len(enc) - 8193), 5, len(enc) - 4097} & set(range(len(enc))))
+        for cut in cuts:
+            r.states += 1
+            p = rt.parse(d, enc[:cut], {})
+            r.case(nontrivial=True, outcome=p[0] if p[0] != "cerr" else p[1], validated=1)
+            if not (p[0] == "cerr" and p[1] == "StreamError"):
+                r.violation("C06/truncation-%s/%s" % ("accepted" if p[0] == "ok" else p[1] if len(p) > 1 else p[0], tsig), {"part": "scale", "term": t, "size": n, "cut": cut},
+                            "%s: the %d-byte encoding truncated to %d bytes -> %s (expected StreamError)" % (T.show(t), len(enc), cut, "a value was returned" if p[0] == "ok" else repr(p[:2])))
+    r.sample({"scale_size": n, "terms": len(scale_rigid_terms(n))})
+
+
 def run_unit(unit, tier):
     r = UnitResult()
+    if unit["kind"] == "scale-trunc":
+        run_scale_trunc(unit["size"], r)
+        return r
     if unit["kind"] == "input":
         run_input(unit, tier, r)
     else:
@@ -355,6 +422,9 @@ def run_unit(unit, tier):
 
 
 def replay(case):
+    if case.get("part") == "scale":
+        r = UnitResult(); run_scale_trunc(case["size"], r)
+        return [v for v in r.violations if v["case"].get("term") == case["term"] and v["case"].get("cut") == case.get("cut")]
     t = case["term"]
     d = T.mk(t)
     kw = case.get("kw") or {}
